@@ -95,7 +95,22 @@ func deliverToSubscription(
 					s.Where(sql.EQ(t.C(message.FieldOrderKey), *m.OrderKey))
 				},
 			).
-			Order(ent.Desc(delivery.FieldPublishedAt)).
+			// no duplicates to remove, and with DISTINCT postgres would only accept
+			// selected columns in ORDER BY
+			Unique(false).
+			Order(
+				ent.Desc(delivery.FieldPublishedAt),
+				// deliveries made in one transaction share their publish time (e.g.
+				// several deliveries dead-lettered at once): the most recent of
+				// those is the one no other delivery is waiting on yet
+				func(s *sql.Selector) {
+					n := sql.Table(delivery.Table).As("next_ready")
+					s.OrderExpr(sql.Exists(
+						sql.Select().From(n).
+							Where(sql.ColumnsEQ(n.C(delivery.NotBeforeColumn), s.C(delivery.FieldID))),
+					))
+				},
+			).
 			First(ctx)
 		if err == nil {
 			createDelivery.SetNotBefore(lastDelivery)
